@@ -458,7 +458,9 @@ func (bva *BaseLockup) checkSender(ctx context.Context, sender string) error {
 	if err != nil {
 		return sdkerrors.ErrInvalidAddress.Wrapf("invalid sender address: %s", err.Error())
 	}
-	if !bytes.Equal(owner, senderBytes) {
+	// the sender field of the message is attacker-controlled: the account that
+	// actually invoked the execution must be the owner as well
+	if !bytes.Equal(owner, senderBytes) || !accountstd.HasSender(ctx, owner) {
 		return errors.New("sender is not the owner of this vesting account")
 	}
 
